@@ -189,7 +189,8 @@ def compare(got, want, parent, path):
             raise Mismatch('X2 item kind differs in <%s>: expected %s %r, parsed %s %r' % (
                 path, w['t'], w.get('name', w.get('s')), g[0], g[1]))
         if w['t'] == 'comment':
-            if g[1] != w['s']:
+            # the blanks the writer puts around a comment's text are formatting, not content
+            if g[1].strip(' ') != w['s'].strip(' '):
                 raise Mismatch('X2 comment differs in <%s>: got %r want %r' % (path, g[1], w['s']))
         else:
             if g[1] != w['name']:
